@@ -45,6 +45,23 @@
 //!                    update panics at its first write)
 //! These steps are interleaved with `reopen` sequences.
 //!
+//! MULTI-STAGE crash histories (case parameter `hist=<s0>,<s1>,…`, s_j = `<n_j>[c][f][r]`): before the build
+//! under test starts, the directory goes through COMPLETED builds over the first n_0 < n_1 < … datasets, one
+//! after the other, each in its own open … drop: stage 0 is `RevIndex::create`, a later stage is
+//! `open` + `update` (`c`: `create` on the same directory instead); every one of them ends in its own
+//! compaction, so that from the second stage on the HASHES entries of the earlier datasets are stored,
+//! fully merged VALUES (not pending merge operands).  `f`: after the stage the index is opened read-write,
+//! flushed and dropped; `r`: opened read-only and dropped.  `base` is the last n_j: the build under test
+//! (`via=`) extends that index to the whole collection and is killed by `crash <n>` (threads=1: inside a
+//! chosen dataset, after some of its HASHES merges and before its PROCESSED marker), re-run by further
+//! `crash` / `resume` / `resumec` lines — the re-run merges the killed dataset's hashes a second time
+//! (duplicate merge operands on top of the stored values).
+//!   settle <seq>     seq = comma separated `flush` (open read-write, flush, drop) | `open` (open read-write,
+//!                    drop: write-ahead-log replay) | `openro` (open read-only, drop), applied to the
+//!                    directory as the kill left it — so that the operands written before the kill sit in
+//!                    a table file of their own, apart from those of the re-run; answer: per-step results
+//!                    (`ok` / `err`: the index cannot be opened), `|`, the durable state
+//!
 //! Full observation = H (scan of the HASHES column family), P (PROCESSED), M (version / manifest
 //! rows / storage spec), X (number of keys in STORAGE), C (counter_for_query of q), G (gather of q),
 //! S (collection().sig_for_dataset(i) for every i: name, hashes, `md5ok` iff the md5 of the signature
@@ -89,6 +106,39 @@ fn rand_coll(r: &mut Rng, nd: usize, maxh: usize, universe: u64) -> Vec<Vec<u64>
                     }
                 })
                 .collect();
+            v.sort_unstable();
+            v.dedup();
+            v
+        })
+        .collect()
+}
+
+/// datasets that share most of their hashes: a core of 5-14 hashes (small ones, a few of the large
+/// kinds), every dataset keeps each core hash with probability 3/4 and adds up to two of its own
+fn shared_coll(r: &mut Rng, nd: usize) -> Vec<Vec<u64>> {
+    let ncore = r.range(5, 14) as usize;
+    let mut core: Vec<u64> = (0..ncore)
+        .map(|_| {
+            if r.chance(1, 12) {
+                u64::MAX - r.below(3)
+            } else if r.chance(1, 12) {
+                (1u64 << 32) + r.below(3)
+            } else {
+                1 + r.below(30)
+            }
+        })
+        .collect();
+    core.sort_unstable();
+    core.dedup();
+    (0..nd)
+        .map(|_| {
+            let mut v: Vec<u64> = core.iter().copied().filter(|_| r.chance(3, 4)).collect();
+            for _ in 0..r.below(3) {
+                v.push(31 + r.below(20));
+            }
+            if r.chance(1, 12) {
+                v.clear();
+            }
             v.sort_unstable();
             v.dedup();
             v
@@ -394,6 +444,119 @@ fn gen(a: &Args) {
         };
         o.op(&format!("reopen {}", tail));
     }
+
+    // stream 7 (generated last): MULTI-STAGE crash histories.  Two or three COMPLETED builds (create, then
+    // open+update or create again, each with its own compaction; now and then a flush / a read-only open
+    // after a stage) over growing prefixes of a collection whose datasets share MOST of their hashes, then
+    // the build under test (one thread) killed INSIDE a new dataset: after some of its HASHES merges — on
+    // hashes that hold stored values of the earlier stages — and before its PROCESSED marker; then
+    // (optionally) a flush / open of the directory as the kill left it, (optionally) a second and third
+    // kill during the re-run, the re-run (in-process / fresh process, once or twice), a reopen sequence.
+    let nms = if thorough { 1600 } else { 90 };
+    for i in 0..nms {
+        let nd = r.range(3, 6) as usize;
+        let c = shared_coll(&mut r, nd);
+        let q = rand_query(&mut r, &c);
+        // completed stages: mostly two or three (one: the earlier entries are still merge operands)
+        let nst = match r.below(8) {
+            0 => 1,
+            1..=4 => 2,
+            _ => 3,
+        }
+        .min(nd - 1);
+        // increasing prefix sizes n_0 < … < n_{nst-1} < nd
+        let mut sizes: Vec<usize> = vec![];
+        let mut lo = 1usize;
+        for k in 0..nst {
+            let hi = nd - 1 - (nst - 1 - k);
+            let n = if r.chance(2, 3) { lo } else { r.range(lo as u64, hi as u64) as usize };
+            sizes.push(n);
+            lo = n + 1;
+        }
+        let base = *sizes.last().unwrap();
+        let hist: Vec<String> = sizes
+            .iter()
+            .enumerate()
+            .map(|(k, n)| {
+                let mut t = n.to_string();
+                if k > 0 && r.chance(1, 5) {
+                    t.push('c');
+                }
+                if r.chance(1, 5) {
+                    t.push('f');
+                }
+                if r.chance(1, 6) {
+                    t.push('r');
+                }
+                t
+            })
+            .collect();
+        let via = if r.chance(3, 4) { "update" } else { "create" };
+        o.case(&format!(
+            "coll={} base={} via={} threads=1 how={} q={} fs={} hist={}",
+            show_coll(&c),
+            base,
+            via,
+            hows[i % 3],
+            show_nats(q.iter().copied()),
+            if i % 6 == 0 { "disk" } else { "shm" },
+            hist.join(",")
+        ));
+        // the dataset the kill lands in: mostly the first new one
+        let t = if r.chance(3, 4) { base } else { r.range(base as u64, nd as u64 - 1) as usize };
+        let before: usize = c[base..t].iter().map(|d| d.len() + 1).sum();
+        let nh = c[t].len() as u64;
+        // k of its hash writes issued (k = nh: all of them, the marker not); an empty dataset: at its marker
+        let k = if nh == 0 {
+            0
+        } else {
+            match r.below(5) {
+                0 => 1,
+                1 => nh,
+                2 => nh - 1,
+                _ => r.range(1, nh),
+            }
+            .max(1)
+        };
+        o.op(&format!("crash {}", before as u64 + k));
+        let settle = |r: &mut Rng, o: &mut Out| {
+            match r.below(6) {
+                0 => o.op("settle flush"),
+                1 => o.op("settle open"),
+                2 => o.op("settle openro,flush"),
+                3 => o.op("settle flush,open"),
+                _ => {}
+            };
+        };
+        settle(&mut r, &mut o);
+        // further kills during the re-run (which starts again at dataset t)
+        let again = match r.below(6) {
+            0 | 1 => 1,
+            2 => 2,
+            _ => 0,
+        };
+        for _ in 0..again {
+            let n = match r.below(4) {
+                // inside dataset t again
+                0 | 1 => r.range(1, nh.max(1)),
+                // anywhere in the rest of the run, metadata writes and compaction included
+                2 => r.below(points(&c, t) as u64),
+                _ => nh,
+            };
+            o.op(&format!("crash {}", n));
+            settle(&mut r, &mut o);
+        }
+        o.op(if i % 3 == 1 { "resumec" } else { "resume" });
+        match r.below(6) {
+            0 => o.op("resume"),
+            1 => o.op(&format!("reopen {}", rand_seq(&mut r, 3))),
+            2 => {
+                o.op("reopen openrw,flush,close,openro");
+                o.op("resumec")
+            }
+            _ => {}
+        }
+    }
 }
 
 // ------------------------------------------------------------------------------------ exec
@@ -417,6 +580,8 @@ struct St {
     stages: Vec<(usize, usize)>,
     /// a fresh directory per stage collection that is built
     nstage_dirs: u32,
+    /// `hist=` of the case line: (number of datasets, via create, then flush, then read-only open)
+    hist: Vec<(usize, bool, bool, bool)>,
 }
 
 fn new_state() -> St {
@@ -436,6 +601,7 @@ fn new_state() -> St {
         moves: 0,
         stages: vec![],
         nstage_dirs: 0,
+        hist: vec![],
     }
 }
 
@@ -730,8 +896,20 @@ fn setup(st: &mut St, ws: &[&str]) {
                     })
                     .collect()
             }
+            "hist" => {
+                st.hist = v
+                    .split(',')
+                    .map(|x| {
+                        let n: String = x.chars().take_while(|c| c.is_ascii_digit()).collect();
+                        (n.parse().unwrap(), x.contains('c'), x.contains('f'), x.contains('r'))
+                    })
+                    .collect()
+            }
             _ => {}
         }
+    }
+    if let Some(last) = st.hist.last() {
+        st.base = last.0;
     }
     let shm = std::path::Path::new("/dev/shm");
     let tmp = if ws.iter().any(|w| *w == "fs=shm") && shm.is_dir() {
@@ -749,7 +927,26 @@ fn setup(st: &mut St, ws: &[&str]) {
         .collect();
     st.paths = write_sig_files(&st.sig_dir, &st.sigs);
     st.tmp = Some(tmp);
-    if st.base > 0 || st.via == "update" {
+    if !st.hist.is_empty() {
+        // completed builds, one after the other, each in its own open … drop
+        for (j, &(n, create, fl, ro)) in st.hist.iter().enumerate() {
+            let coll = fs_collection(&st.paths[..n.min(st.paths.len())]);
+            let idx = if j == 0 || create {
+                RevIndex::create(&st.idx, coll, false).unwrap()
+            } else {
+                RevIndex::open(&st.idx, false, None).unwrap().update(coll).unwrap()
+            };
+            drop(idx);
+            if fl {
+                let idx = RevIndex::open(&st.idx, false, None).unwrap();
+                idx.flush().unwrap();
+                drop(idx);
+            }
+            if ro {
+                drop(RevIndex::open(&st.idx, true, None).unwrap());
+            }
+        }
+    } else if st.base > 0 || st.via == "update" {
         let idx = RevIndex::create(&st.idx, fs_collection(&st.paths[..st.base]), false).unwrap();
         drop(idx);
     }
@@ -887,6 +1084,26 @@ fn reopen(st: &mut St, seq: &str) -> String {
     format!("{}|{}", res.join(","), observe(st))
 }
 
+/// `settle`: open / flush / drop on the directory as it is
+fn settle(st: &mut St, seq: &str) -> String {
+    st.handle = None;
+    let mut res = vec![];
+    for tok in seq.split(',') {
+        // a directory without version / manifest / storage spec: `open` errs or panics
+        let idx = std::panic::catch_unwind(std::panic::AssertUnwindSafe(|| RevIndex::open(&st.idx, tok == "openro", None)));
+        let r = match idx {
+            Ok(Ok(idx)) => {
+                let r = if tok == "flush" && idx.flush().is_err() { "err-flush" } else { "ok" };
+                drop(idx);
+                r
+            }
+            _ => "err",
+        };
+        res.push(r);
+    }
+    format!("{}|{}", res.join(","), show_scan(&scan(st)))
+}
+
 fn step(st: &mut St, ws: &[&str]) -> String {
     match ws[0] {
         "case" => {
@@ -937,6 +1154,7 @@ fn step(st: &mut St, ws: &[&str]) -> String {
         }
         "obs" => observe(st),
         "reopen" => reopen(st, ws[1]),
+        "settle" => settle(st, ws[1]),
         "mk" | "ext" => stage_step(st, ws[0] == "ext", ws[1].parse().unwrap(), ws.get(2) == Some(&"mem")),
         _ => "bad-op".into(),
     }
